@@ -138,6 +138,7 @@ def check(R, tier):
     U.signed_role_new(R, I, tier)
     U.update_delegated(R, I, tier)
     U.target_path(R, I, tier)
+    U.key_lookup(R, I, tier)
     native(R, tier)
 
 def native(R, tier):
